@@ -1,0 +1,23 @@
+//go:build verif
+
+package coroutines
+
+// Contracts for the verif engine (/verif). Comment-only: no code is compiled
+// from this file with or without the tag. Syntax: see /verif/DESIGN.md.
+
+//@ func ReadPromise
+//@ props C01 C02 C04
+//@ ghostdb coroutine
+//@ requires c != nil && r != nil && r.ReadPromise != nil
+//@ ensures (res != nil) != (err != nil)
+//@ ensures err == nil ==> res.Kind == t_api.ReadPromise && res.ReadPromise != nil
+//@ ensures err == nil ==> linearizes(res.ReadPromise.Status == seq.read.status(pre_promises(r.ReadPromise.Id)) && post_promises(r.ReadPromise.Id) == p.effective(pre_promises(r.ReadPromise.Id), T) && (res.ReadPromise.Status == t_api.StatusOK ==> res.ReadPromise.Promise != nil && pview(res.ReadPromise.Promise) == pview.row(p.effective(pre_promises(r.ReadPromise.Id), T))))
+
+//@ func CompletePromise
+//@ props C01 C02 C03 C04
+//@ ghostdb coroutine
+//@ requires c != nil && r != nil && r.CompletePromise != nil
+//@ requires r.CompletePromise.State == promise.Resolved || r.CompletePromise.State == promise.Rejected || r.CompletePromise.State == promise.Canceled
+//@ ensures (res != nil) != (err != nil)
+//@ ensures err == nil ==> res.Kind == t_api.CompletePromise && res.CompletePromise != nil
+//@ ensures err == nil ==> linearizes(res.CompletePromise.Status == seq.complete.status(pre_promises(r.CompletePromise.Id), T, r.CompletePromise.State, opt(r.CompletePromise.IdempotencyKey), r.CompletePromise.Strict) && post_promises(r.CompletePromise.Id) == seq.complete.row(pre_promises(r.CompletePromise.Id), T, r.CompletePromise.State, r.CompletePromise.Value.Headers, r.CompletePromise.Value.Data, opt(r.CompletePromise.IdempotencyKey)) && (res.CompletePromise.Status != t_api.StatusPromiseNotFound ==> res.CompletePromise.Promise != nil && pview(res.CompletePromise.Promise) == pview.row(post_promises(r.CompletePromise.Id))))
